@@ -434,20 +434,12 @@ impl SwarmDriver {
                             publisher: None,
                             expires: None,
                         };
-                        for sender in senders {
-                            let new_accumulated_record = new_accumulated_record.clone();
-
-                            sender
-                                .send(Ok(new_accumulated_record))
-                                .map_err(|_| NetworkError::InternalMsgChannelDropped)?;
-                        }
+                        Self::send_get_record_result(senders, Ok(new_accumulated_record));
                     } else {
-                        for sender in senders {
-                            let result_map = result_map.clone();
-                            sender
-                                .send(Err(GetRecordError::SplitRecord { result_map }))
-                                .map_err(|_| NetworkError::InternalMsgChannelDropped)?;
-                        }
+                        Self::send_get_record_result(
+                            senders,
+                            Err(GetRecordError::SplitRecord { result_map }),
+                        );
                     }
                 }
 
@@ -489,13 +481,10 @@ impl SwarmDriver {
                 warn!(
                     "Multiple versions ({num_of_versions}) found for record {data_key_address:?}!"
                 );
-                for sender in senders {
-                    sender
-                        .send(Err(GetRecordError::SplitRecord {
-                            result_map: result_map.clone(),
-                        }))
-                        .map_err(|_| NetworkError::InternalMsgChannelDropped)?;
-                }
+                Self::send_get_record_result(
+                    senders,
+                    Err(GetRecordError::SplitRecord { result_map }),
+                );
 
                 return Ok(());
             }
@@ -503,11 +492,7 @@ impl SwarmDriver {
             // we have no results, bail
             if num_of_versions == 0 {
                 debug!("No versions found for record {data_key_address:?}!");
-                for sender in senders {
-                    sender
-                        .send(Err(GetRecordError::RecordNotFound))
-                        .map_err(|_| NetworkError::InternalMsgChannelDropped)?;
-                }
+                Self::send_get_record_result(senders, Err(GetRecordError::RecordNotFound));
                 return Ok(());
             }
 
@@ -529,11 +514,7 @@ impl SwarmDriver {
                     debug!("Getting record task {query_id:?} completed with step count {:?}, but no copy found.", step.count);
                     Err(GetRecordError::RecordNotFound)
                 };
-                for sender in senders {
-                    sender
-                        .send(result.clone())
-                        .map_err(|_| NetworkError::InternalMsgChannelDropped)?;
-                }
+                Self::send_get_record_result(senders, result);
             }
         } else {
             debug!("Can't locate query task {query_id:?} during GetRecord finished. We might have already returned the result to the sender.");
@@ -572,11 +553,7 @@ impl SwarmDriver {
                 } else {
                     debug!("Get record task {query_id:?} failed with {:?} expected holders not responded, error {get_record_err:?}", cfg.expected_holders);
                 }
-                for sender in senders {
-                    sender
-                        .send(Err(GetRecordError::RecordNotFound))
-                        .map_err(|_| NetworkError::InternalMsgChannelDropped)?;
-                }
+                Self::send_get_record_result(senders, Err(GetRecordError::RecordNotFound));
             }
             kad::GetRecordError::Timeout { key } => {
                 // return error if the entry cannot be found
@@ -601,11 +578,7 @@ impl SwarmDriver {
                     warn!(
                         "Get record task {query_id:?} for {pretty_key:?} timed out with split result map"
                     );
-                    for sender in senders {
-                        sender
-                            .send(Err(GetRecordError::QueryTimeout))
-                            .map_err(|_| NetworkError::InternalMsgChannelDropped)?;
-                    }
+                    Self::send_get_record_result(senders, Err(GetRecordError::QueryTimeout));
 
                     return Ok(());
                 }
@@ -619,12 +592,8 @@ impl SwarmDriver {
                 }
 
                 warn!("Get record task {query_id:?} for {pretty_key:?} returned insufficient responses. {:?} did not return record", cfg.expected_holders);
-                for sender in senders {
-                    // Otherwise report the timeout
-                    sender
-                        .send(Err(GetRecordError::QueryTimeout))
-                        .map_err(|_| NetworkError::InternalMsgChannelDropped)?;
-                }
+                // Otherwise report the timeout
+                Self::send_get_record_result(senders, Err(GetRecordError::QueryTimeout));
             }
         }
 
@@ -642,12 +611,22 @@ impl SwarmDriver {
             Err(GetRecordError::RecordDoesNotMatch(record))
         };
 
-        for sender in senders {
-            sender
-                .send(res.clone())
-                .map_err(|_| NetworkError::InternalMsgChannelDropped)?;
-        }
+        Self::send_get_record_result(senders, res);
 
         Ok(())
+    }
+
+    /// Hand the outcome of a GetRecord query to every waiting caller.
+    /// A caller that has gone away (its receiver was dropped) must not keep the remaining
+    /// callers from receiving the outcome.
+    fn send_get_record_result(
+        senders: Vec<oneshot::Sender<std::result::Result<Record, GetRecordError>>>,
+        result: std::result::Result<Record, GetRecordError>,
+    ) {
+        for sender in senders {
+            if sender.send(result.clone()).is_err() {
+                debug!("A GetRecord caller went away before its result was available");
+            }
+        }
     }
 }
